@@ -214,6 +214,15 @@ def workflows(draw, max_components=6, max_stages=3, names="simple", methods=("re
                 if d:
                     c["decoy_vars"] = d
     if allow_ref_in_var:
+        # the two spellings of one reference mixed: one in `references`, the other on the command line
+        for c in comps:
+            for r in c["refs"]:
+                if draw(st.integers(0, 5)) == 0:
+                    r["aabs"] = not r["abs"]
+        # the aggregate flag given through a component variable
+        for c in comps:
+            if c["aggregate"] and draw(st.integers(0, 2)) == 0:
+                c["aggregate_via_var"] = draw(st.sampled_from(["true", "yes", "True"]))
         # the text of a reference may live in a component variable that the command line interpolates
         for c in comps:
             if c["refs"] and draw(st.integers(0, 4)) == 0:
@@ -227,11 +236,13 @@ def workflows(draw, max_components=6, max_stages=3, names="simple", methods=("re
 
 
 # ----------------------------------------------------------------------------------------------------------
-def ref_string(W, consumer_idx: int, ref: dict) -> str:
+def ref_string(W, consumer_idx: int, ref: dict, in_args: bool = False) -> str:
+    """in_args: the spelling used on the command line (may differ from the one in `references`: key `aabs`)."""
     comps = W["components"]
     p = comps[ref["p"]]
     s = p["name"]
-    if ref["abs"] or p["stage"] != comps[consumer_idx]["stage"]:
+    absolute = ref.get("aabs", ref["abs"]) if in_args else ref["abs"]
+    if absolute or p["stage"] != comps[consumer_idx]["stage"]:
         s = "stage%d.%s" % (p["stage"], s)
     if ref.get("path"):
         s += "/" + ref["path"]
@@ -245,7 +256,7 @@ def render(W, executable="echo") -> dict:
     stage_vars = {}
     for i, c in enumerate(W["components"]):
         refs = [ref_string(W, i, r) for r in c["refs"]]
-        arg_refs = list(refs)
+        arg_refs = [ref_string(W, i, r, in_args=True) for r in c["refs"]]
         via = c.get("ref_in_var")
         if via is not None:
             arg_refs[via] = "%(rv)s"
@@ -267,6 +278,9 @@ def render(W, executable="echo") -> dict:
             variables["nrep_c"] = W["n"]
         if c["aggregate"]:
             wa["aggregate"] = True
+            if c.get("aggregate_via_var"):
+                wa["aggregate"] = "%(aggv)s"
+                variables["aggv"] = c["aggregate_via_var"]
         if c["repeat"]:
             wa["repeatInterval"] = c["repeat"]
         if c["shutdownOn"]:
